@@ -120,6 +120,15 @@ HISTORY = {
     "C20-r10-2": "round 10. numpoly.call writes the positional values into the caller's kwargs dict: caught by C17 (and by C02's repeat rider); C20 does not reuse a kwargs dict",
     "C05-r10-1": "round 10. first run: missed; 12% of the divisions now run with floating-point faults and warnings promoted to errors (numpy.errstate(all='raise'))",
     "C05-r10-2": "round 10. first run: missed; exact multiples now also have cofactors scaled by 2**-40 / 2**-60 / 2**-80 (far below machine epsilon, far above the documented absolute cutoff of 1e-30), with the tolerance following that scale",
+    "C18-r11-2": "round 11 (hard mode). first run: missed by C18 and C08; glexindex is now also called with all six arguments positionally (start, stop, dimensions, cross_truncation, graded, reverse)",
+    "C11-r11-2": "round 11. numpy.minimum.reduce mapped to amax: a spelling disagreement, caught by C08 (reduce form); C11 drives amin through its function and method spellings only",
+    "C13-r11-1": "round 11. first run: missed by C13 and C20; integer polynomials with coefficients beyond 2**53 are now written with fmt='%d' and read back with dtype=int64",
+    "C12-r11-2": "round 11. first run: missed by C12, C01 and C17; new cast-oracle entry update_through_view: coefficients are read once, the polynomial is overwritten through a transposed / reshaped view (copyto), then cast and rebuilt",
+    "C02-r11-2": "round 11. first run: missed by C02 and C17; every full numeric evaluation result is overwritten and the call repeated (arguments and next result must be unchanged), and 5% of the polynomials are bare indeterminates",
+    "C16-r11-1": "round 11. first run: missed by C16 and C14; arrays of two and more dimensions are now also printed as transposed views and Fortran-ordered copies",
+    "C16-r11-2": "round 11. first run: missed by C16 and C14; to_sympy is now called inside the option block before printing (this exposed to_sympy's own dependence on the display signs in the unchanged library, fixed in the repository; the seed's patch was rebased onto that fix)",
+    "C09-r11-1": "round 11. first run: missed by C09 and C11; concatenate is now also called with axis=None (also with a single operand)",
+    "C09-r11-2": "round 11. first run: missed by C09 and C11; full_like now gets shape= overrides, including the 0-d ()",
     "C06-2": "first run: caught by C06, missed by C15; C15's derivative entry now differentiates with respect to several variables",
 }
 REJECTED = [
